@@ -423,6 +423,32 @@ func (e *envModel) unmarshal(fr *frame, format string, data []value, target valu
 		return mkErr("invalid character '{' looking for beginning of object key string")
 	}
 	if tr.n < tr.doc.size || len(data) < tr.doc.size || tr.doc.fmt != format {
+		if format == "yaml" && tr.doc.fmt == format {
+			// a YAML block sequence cut after k bytes either fails to parse or — at many cut
+			// points — parses as the list of the entries that were completely written: both are
+			// explored
+			have := tr.n
+			if len(data) < have {
+				have = len(data)
+			}
+			src := tr.doc.obj
+			if si, ok := src.(iface); ok {
+				src = si.v
+			}
+			if sl, ok := src.([]value); ok && have >= 4 && i.choose(2, "torn YAML list: unparseable / parses as a shorter list") == 1 {
+				m := (have - 4) / 2
+				if m > len(sl) {
+					m = len(sl)
+				}
+				if it, ok := target.(iface); ok {
+					if dst, ok := it.v.(*value); ok && dst != nil {
+						i.assignDecodedFmt(dst, deepCopy(value(sl[:m:m])), it.t, format)
+						return iface{}
+					}
+				}
+			}
+			return mkErr("yaml: unmarshal errors: torn document")
+		}
 		if format == "yaml" {
 			return mkErr("yaml: unmarshal errors: torn document")
 		}
